@@ -75,6 +75,7 @@ type interpreter struct {
 	curFrame  *frame
 	poisoned  []string
 	forceLazy int
+	inHook    int
 	namedCache map[string]types.Type
 	initGlobals map[*ssa.Package]map[*ssa.Global]bool
 }
